@@ -34,8 +34,8 @@ def scenarios(tier):
                     continue
                 for hp in [p for p in itertools.product((0, 1), repeat=k) if p[0] == 0]:
                     for cover in ("all", "one-uncovered", "set-untagged", "chromosome-untagged"):
-                        if cover == "set-untagged" and len(set(blocks)) < 2:
-                            continue
+                        if cover == "set-untagged" and (len(set(blocks)) < 2 or blocks.count("A") < 2):
+                            continue  # (block A alone must still have reads: haplotag refuses an empty BAM)
                         if cover == "chromosome-untagged" and (k != 3 or len(set(blocks)) > 1):
                             continue
                         yield {"seed": seed, "types": list(tv), "blocks": list(blocks), "hp": list(hp), "cover": cover}
